@@ -265,3 +265,48 @@ def other_precision_call(m, shape, dtype, inverse_pyramid=None):
                 m(inverse_pyramid(other))
     except Exception:       # noqa
         pass
+
+
+def backward_after_overwrite(r, module, outs, leaves, cts, what, pick=0):
+    """History step for the adjoint properties: the forward pass has been recorded (outs from leaves); pull a cotangent
+    back once, then overwrite the module's filters in place (load_state_dict, as fine-tuning / re-initialising code
+    does) and pull the same cotangent back again through the SAME recorded graph. The gradient belongs to the function
+    the forward pass computed: either autograd refuses (its saved-tensor version check; the pinned tree does), or the
+    second pull-back equals the first. Returns False after recording a violation."""
+    from pwv import core
+    ok, g1 = core.lib(torch.autograd.grad, outs, leaves, cts, allow_unused=True, retain_graph=True)
+    if not ok:
+        return True                 # reported by the main part of the check
+    sd = module.state_dict()
+    if not sd:
+        return True
+    # all filters (pick % 3 == 0) or a single one: a refusal caused by one filter must not hide what happens with another
+    keys = sorted(sd)
+    chosen = set(keys) if pick % 3 == 0 else {keys[(pick // 3) % len(keys)]}
+    if len(chosen) == len(keys):
+        module.load_state_dict({k: (v * 1.5 + 0.25 if v.is_floating_point() else v) for k, v in sd.items()})
+    else:
+        with torch.no_grad():       # load_state_dict would copy_ into (and bump the version of) every entry
+            for k in chosen:
+                sd[k].copy_(sd[k] * 1.5 + 0.25)
+    r.label('filters_overwritten_before_backward')
+    ok, g2 = core.lib(torch.autograd.grad, outs, leaves, cts, allow_unused=True)
+    if not ok:
+        if 'inplace operation' in str(g2) or 'modified by an in' in str(g2):
+            r.label('backward_refused_after_overwrite')
+            return True
+        r.fail('backward_after_overwrite_raise:' + g2.bucket, '%s: backward after the filters were overwritten raised: %s' % (what, g2))
+        return False
+    for a, b in zip(g1, g2):
+        if (a is None) != (b is None):
+            r.fail('backward_uses_later_filters', '%s: gradient present/absent differs after the filters were overwritten' % what)
+            return False
+        if a is not None:
+            sc = max(float(a.abs().max()), 1e-300)
+            d = float((a - b).abs().max())
+            if not d <= 1e-9 * sc:
+                r.fail('backward_uses_later_filters', '%s: the forward pass ran with the original filters, but after they were '
+                       'overwritten in place the recorded graph back-propagates something else (differs by %.3g of max %.3g) '
+                       'instead of refusing' % (what, d, sc))
+                return False
+    return True
